@@ -171,7 +171,7 @@ Inductive error :=
 | ECustomMessage (s : str).
 
 (* Every model function returns an outcome: a value, an evalexpr error, or a panic at a numbered site
-   (the sites are listed in Model/PanicSites.v). *)
+   (the numbered sites are the Panic constructors in the model files; tools/panic_sites.json lists the source side). *)
 Inductive outcome (A : Type) := Ok (a : A) | Err (e : error) | Panic (site : N).
 Arguments Ok {A}. Arguments Err {A}. Arguments Panic {A}.
 
